@@ -39,10 +39,12 @@ class CleanOracle:
         self.n = 0
         self.runs = 0
 
-    def get(self, model, extra_config=None, env=None, target="root"):
-        key = common.digest_of([projgen.files_of(model, extra_config), env, target])
+    def get(self, model, extra_config=None, env=None, target="root", key_extra=None, before=None):
+        key = common.digest_of([projgen.files_of(model, extra_config), env, target, key_extra])
         if key in self.memo:
             return self.memo[key]
+        if before is not None:
+            before()
         self.n += 1
         d = os.path.join(self.root, "clean%d" % self.n, "p")
         os.makedirs(d)
@@ -90,3 +92,36 @@ def step_scripts(result):
             label = parts[-3] if len(parts) >= 3 else None
         out.append((label, s))
     return out
+
+def visited_workspaces(info):
+    """Which workspaces did the last invocation visit?  Bob descends into the
+    dependencies of a package only if it builds it; a downloaded or shared
+    package ends the descent.  `info` is a bobq.query(..., want=("detail","bid"))."""
+    by_dist = {}
+    for path, ent in info.items():
+        d = ent["steps"]["dist"]
+        if d.get("valid"):
+            by_dist[d["ws"]] = ent
+    visited = set()
+    def visit(ent):
+        d = ent["steps"]["dist"]
+        if d["ws"] in visited:
+            return
+        visited.add(d["ws"])
+        if d.get("prov") != "built":
+            return
+        for lab in ("src", "build"):
+            st = ent["steps"][lab]
+            if st.get("valid"):
+                visited.add(st["ws"])
+        for lab in ("src", "build", "dist"):
+            st = ent["steps"][lab]
+            if not st.get("valid"):
+                continue
+            for a in list(st.get("args", [])) + list(st.get("tools", {}).values()):
+                if a in by_dist:
+                    visit(by_dist[a])
+    for path, ent in info.items():
+        if "/" not in path:
+            visit(ent)
+    return visited
